@@ -244,3 +244,55 @@ func TestVerifReplayWritesAreCommitted(t *testing.T) {
 		t.Logf("REPLAY-NOT-REPRODUCED")
 	}
 }
+
+// C15 "while the primary is unreachable, logins and second-factor checks continue from the cache": history of the
+// model - the primary cannot even prepare the statement (its handle is closed: every statement fails at once); the
+// profile and the signed record were mirrored into the cache beforehand.
+func TestVerifReplayUnreachablePrimaryFallsBackToCache(t *testing.T) {
+	state, passwdFile, err := setupValidRuntimeStateSigner(t)
+	if err != nil {
+		t.Fatal(err)
+	}
+	defer os.Remove(passwdFile.Name())
+	tmpdir, err := os.MkdirTemp("", "verif-storage-")
+	if err != nil {
+		t.Fatal(err)
+	}
+	defer os.RemoveAll(tmpdir)
+	state.Config.Base.DataDirectory = tmpdir
+	if err := initDB(state); err != nil {
+		t.Fatal(err)
+	}
+	state.dbDone <- struct{}{}
+	p, _, _, err := state.LoadUserProfile("alice")
+	if err != nil {
+		t.Fatal(err)
+	}
+	if err := state.SaveUserProfile("alice", p); err != nil {
+		t.Fatal(err)
+	}
+	if err := state.UpsertSigned("alice", 1, time.Now().Add(time.Hour).Unix(), "hash-of-alice"); err != nil {
+		t.Fatal(err)
+	}
+	if err := copyDBIntoSQLite(state.db, state.cacheDB, "sqlite"); err != nil {
+		t.Fatal(err)
+	}
+	state.remoteDBQueryTimeout = 200 * time.Millisecond
+	state.db.Close()
+	confirmed := false
+	_, ok, fromCache, err := state.LoadUserProfile("alice")
+	t.Logf("primary closed: LoadUserProfile -> ok=%v fromCache=%v err=%v", ok, fromCache, err)
+	if err != nil || !ok || !fromCache {
+		t.Logf("REPLAY-CONFIRMED: with the primary unreachable the profile is not served from the cache")
+		confirmed = true
+	}
+	sok, data, err := state.GetSigned("alice", 1)
+	t.Logf("primary closed: GetSigned -> ok=%v data=%q err=%v", sok, data, err)
+	if err != nil || !sok || data != "hash-of-alice" {
+		t.Logf("REPLAY-CONFIRMED: with the primary unreachable the signed record is not served from the cache")
+		confirmed = true
+	}
+	if !confirmed {
+		t.Logf("REPLAY-NOT-REPRODUCED")
+	}
+}
